@@ -22,7 +22,7 @@ func init() {
 		Doc: "every store's NodeURLPrefix identifies the container its Load/Store address: its result depends on the receiver's identity, or on every string-typed location field " +
 			"that Load/Store read (S3: BucketName and Prefix; file: the base path) — directly or through the value the constructor stored — so two stores that address different objects never share cache keys.",
 		Run: runNODEURLPREFIX})
-	Register(&Rule{ID: "DECODEFRESH", Props: []string{"C05"}, Min: 2,
+	Register(&Rule{ID: "DECODEFRESH", Props: []string{"C05"}, Min: 1,
 		Doc: "every decoded key/value gets its own freshly allocated target: a reflect.New whose result is stored into a slice element inside a loop is itself executed inside that loop " +
 			"(a hoisted target makes all entries of a node alias or inherit leftovers of the previous entry).",
 		Run: runDECODEFRESH})
@@ -275,8 +275,7 @@ func runDECODEFRESH(c *Ctx) {
 				if !ok {
 					continue
 				}
-				sc := call.Call.StaticCallee()
-				if sc == nil || sc.String() != "reflect.New" {
+				if !allocatesDecodeTarget(call, 0) {
 					continue
 				}
 				// element stores fed by this allocation
@@ -1316,7 +1315,16 @@ func runPOWLOOP(c *Ctx) {
 	if fn == nil {
 		return
 	}
-	isRootField := func(v ssa.Value, name string) bool {
+	var env map[*ssa.Parameter]ssa.Value
+	var isRootField func(v ssa.Value, name string) bool
+	isRootField = func(v ssa.Value, name string) bool {
+		if p, isP := stripConv(v).(*ssa.Parameter); isP && env != nil && env[p] != nil {
+			saved := env
+			env = nil
+			r := isRootField(saved[p], name)
+			env = saved
+			return r
+		}
 		ld, ok := stripConv(v).(*ssa.UnOp)
 		if !ok || ld.Op != token.MUL {
 			return false
@@ -1333,7 +1341,12 @@ func runPOWLOOP(c *Ctx) {
 			}
 			n++
 			pos := P.InstrPos(st)
-			acc, ok := stripConv(st.Val).(*ssa.Phi)
+			val := st.Val
+			env = nil
+			if inner, e, ok := helperResult(val); ok {
+				val, env = inner, e
+			}
+			acc, ok := stripConv(val).(*ssa.Phi)
 			if !ok {
 				c.Undecided(fn, pos, "shrinkBelowSize not a loop accumulator", "cannot recognise how BranchFactor^Height is computed")
 				continue
@@ -1430,4 +1443,29 @@ func runPOWLOOP(c *Ctx) {
 	if n == 0 {
 		c.AnchorMissing("store of Mast.shrinkBelowSize in LoadMast")
 	}
+}
+
+// allocatesDecodeTarget: the call is reflect.New, or a repository helper whose
+// result is built from a reflect.New executed inside it (one allocation per call).
+func allocatesDecodeTarget(call *ssa.Call, depth int) bool {
+	sc := call.Call.StaticCallee()
+	if sc == nil {
+		return false
+	}
+	if sc.String() == "reflect.New" {
+		return true
+	}
+	if depth >= 2 || sc.Blocks == nil {
+		return false
+	}
+	for _, r := range ir.Returns(sc) {
+		for _, res := range r.Results {
+			for v := range operandClosure(res, nil) {
+				if c2, ok := v.(*ssa.Call); ok && c2 != call && c2.Parent() == sc && allocatesDecodeTarget(c2, depth+1) {
+					return true
+				}
+			}
+		}
+	}
+	return false
 }
